@@ -1,0 +1,31 @@
+// Copyright 2024 Democratized Data Foundation
+//
+// Use of this software is governed by the Business Source License
+// included in the file licenses/BSL.txt.
+//
+// As of the Change Date specified in that file, in accordance with
+// the Business Source License, use of this software will be governed
+// by the Apache License, Version 2.0, included in the file
+// licenses/APL.txt.
+
+//go:build verif
+
+package db
+
+import (
+	"context"
+
+	"github.com/sourcenetwork/defradb/event"
+)
+
+// VerifMerge runs one merge of the given event synchronously and returns its error.
+//
+// It exists only under the `verif` build tag and is used by the external
+// model-based verification harness to control delivery order of commits.
+func (db *DB) VerifMerge(ctx context.Context, evt event.Merge) error {
+	col, err := getCollectionFromCollectionID(ctx, db, evt.CollectionID)
+	if err != nil {
+		return err
+	}
+	return db.executeMerge(ctx, col, evt)
+}
